@@ -110,3 +110,38 @@ def nyquist_and_mean_removed(x):
     mean = x.sum() / LD(n)
     nyq = (x * sign).sum() / LD(n)
     return x - mean - nyq * sign
+
+
+# ---------------------------------------------------------------------------
+# mid-range additions (records of 129 .. 4096 samples): the same long-double formula on a SAMPLE of cells
+
+
+def dft_chunked(x, chunk=256):
+    """The direct long-double DFT of :func:`dft`, evaluated in blocks of `chunk` output coefficients (bounded memory:
+    chunk * n long-double complex numbers at a time)."""
+    x = np.asarray(x, dtype=float).astype(LD)
+    n = len(x)
+    w = np.conj(roots_of_unity(n))
+    t = np.arange(n)
+    out = np.empty(n, dtype=CLD)
+    for j0 in range(0, n, chunk):
+        j = np.arange(j0, min(n, j0 + chunk))
+        out[j0:j0 + len(j)] = w[np.outer(j, t) % n] @ x
+    return out
+
+
+def s_cells(big_x, ks, taus):
+    """S[k, tau] of the statement's formula for the frequency indices `ks` (1..n/2) and the time indices `taus`, long-double
+    sum over all n signed indices m, with big_x the (long-double) DFT of the even-length record.  Returns (len(ks), len(taus))."""
+    big_x = np.asarray(big_x, dtype=CLD)
+    n = len(big_x)
+    m = signed_indices(n)
+    w = roots_of_unity(n)
+    taus = np.asarray(taus, dtype=np.int64)
+    e = w[np.outer(taus, m) % n]  # e[i, j] = exp(2 pi i m_j tau_i / n)
+    out = np.empty((len(ks), len(taus)), dtype=CLD)
+    for i, k in enumerate(ks):
+        k = int(k)
+        y = big_x[(m + k) % n] * gaussian_row(n, k)
+        out[i] = (e @ y) / LD(n)
+    return out
